@@ -1,13 +1,1086 @@
 //! C16 (split / merge partitions) and the collection part of C07 (allocation failure inside collection growth).
+
+use crate::elem::{self, El, ElemT, Z};
+use crate::{CFGS, with_cfg};
+use bump_scope::settings::{BumpAllocatorSettings, BumpSettings};
+use bump_scope::traits::BumpAllocatorTyped;
+use bump_scope::{BaseAllocator, Bump, BumpBox, BumpVec, FixedBumpVec, MutBumpVec, MutBumpVecRev};
+use std::panic::{AssertUnwindSafe, catch_unwind};
+use std::sync::Mutex;
+use std::sync::atomic::{AtomicBool, AtomicU64, AtomicUsize, Ordering};
 use std::time::Instant;
 use vcore::json::J;
+use vcore::slab::{self, SlabCfg, SlabZ};
 
-pub fn explore(_thorough: bool, _deadline: Instant) -> (J, Vec<J>) {
-    unimplemented!()
+type B<S> = Bump<SlabZ, S>;
+
+// =====================================================================================================
+// C16
+// =====================================================================================================
+
+#[derive(Clone, Copy, Debug, PartialEq, Eq)]
+enum Container {
+    Boxed,
+    Fixed,
+    Vec,
 }
-pub fn explore_alloc_failures(_thorough: bool, _deadline: Instant) -> (J, Vec<J>) {
-    unimplemented!()
+
+#[derive(Clone, Copy, Debug, PartialEq, Eq)]
+enum SplitOp {
+    SplitOff(usize, usize),
+    SplitAt(usize),
+    SplitFirst,
+    SplitLast,
+    SplitOffFirst,
+    SplitOffLast,
+    Partition(u8),
+    SplitAtSpare,
+    IntoFlattened,
+    MapInPlace,
 }
-pub fn replay(_case: &str) -> Option<String> {
-    None
+
+#[derive(Clone, Copy, Debug, PartialEq, Eq)]
+enum Follow {
+    Push(usize),
+    PushMany(usize),
+    Shrink(usize),
+    Truncate(usize),
+    Clear(usize),
+    Drop(usize),
+    IntoBox(usize),
+    Dealloc(usize),
+    PopOne(usize),
+    MergeBack,
+    MergeWrongOrder,
+    AllocBetween,
+}
+
+/// one part of a split container
+enum Part<'b, T, S: BumpAllocatorSettings>
+where
+    SlabZ: BaseAllocator<S::GuaranteedAllocated>,
+{
+    Boxed(BumpBox<'b, [T]>),
+    One(BumpBox<'b, T>),
+    Fixed(FixedBumpVec<'b, T>),
+    Vec(BumpVec<T, &'b B<S>>),
+    Gone,
+}
+
+impl<'b, T: ElemT, S: BumpAllocatorSettings> Part<'b, T, S>
+where
+    SlabZ: BaseAllocator<S::GuaranteedAllocated>,
+{
+    fn vals(&self) -> Vec<u32> {
+        match self {
+            Part::Boxed(b) => b.iter().map(|e| e.val()).collect(),
+            Part::One(b) => vec![b.val()],
+            Part::Fixed(v) => v.iter().map(|e| e.val()).collect(),
+            Part::Vec(v) => v.iter().map(|e| e.val()).collect(),
+            Part::Gone => Vec::new(),
+        }
+    }
+    fn capacity(&self) -> Option<usize> {
+        match self {
+            Part::Fixed(v) => Some(v.capacity()),
+            Part::Vec(v) => Some(v.capacity()),
+            _ => None,
+        }
+    }
+    fn range(&self) -> (usize, usize) {
+        let (p, n) = match self {
+            Part::Boxed(b) => (b.as_ptr() as usize, b.len()),
+            Part::One(b) => (&**b as *const T as usize, 1),
+            Part::Fixed(v) => (v.as_ptr() as usize, v.capacity()),
+            Part::Vec(v) => (v.as_ptr() as usize, v.capacity()),
+            Part::Gone => (0, 0),
+        };
+        (p, p + n * size_of::<T>())
+    }
+}
+
+struct SplitCase {
+    ci: usize,
+    container: Container,
+    zst: bool,
+    n: usize,
+    extra_cap: usize,
+    op: SplitOp,
+    follow: Vec<Follow>,
+}
+
+impl SplitCase {
+    fn text(&self) -> String {
+        format!("split:cfg={};cont={:?};zst={};n={};extra={};op={:?};follow={:?}", self.ci, self.container, self.zst as u8, self.n, self.extra_cap, self.op, self.follow)
+    }
+}
+
+fn run_split<S, T>(c: &SplitCase) -> Result<bool, String>
+where
+    S: BumpAllocatorSettings + 'static,
+    T: ElemT + Clone + PartialEq,
+    SlabZ: BaseAllocator<S::GuaranteedAllocated>,
+{
+    let bump: B<S> = Bump::new_in(SlabZ);
+    let _ = bump.alloc(0u8);
+    let orig: Vec<u32> = (1..=c.n as u32).map(|v| if T::IS_ZST { 0 } else { v }).collect();
+    let mk = || (1..=c.n as u32).map(T::new);
+    let cap0;
+    // ---- build the whole
+    let whole: Part<'_, T, S> = match c.container {
+        Container::Boxed => {
+            cap0 = c.n;
+            Part::Boxed(bump.alloc_iter(mk()))
+        }
+        Container::Fixed => {
+            let mut v = FixedBumpVec::with_capacity_in(c.n + c.extra_cap, &bump);
+            for e in mk() {
+                v.push(e);
+            }
+            cap0 = v.capacity();
+            Part::Fixed(v)
+        }
+        Container::Vec => {
+            let mut v: BumpVec<T, &B<S>> = BumpVec::with_capacity_in(c.n + c.extra_cap, &bump);
+            for e in mk() {
+                v.push(e);
+            }
+            cap0 = v.capacity();
+            Part::Vec(v)
+        }
+    };
+    // ---- split, with the model of what each part must contain
+    let n = c.n;
+    let mut expect: Vec<Vec<u32>> = Vec::new();
+    let mut ordered = true;
+    let mut model_panics = false;
+    match c.op {
+        SplitOp::SplitOff(s, e) => {
+            if s > e || e > n {
+                model_panics = true;
+            } else {
+                let mut a = orig.clone();
+                let b: Vec<u32> = a.drain(s..e).collect();
+                expect = vec![a, b];
+            }
+        }
+        SplitOp::SplitAt(at) => {
+            if at > n {
+                model_panics = true;
+            } else {
+                expect = vec![orig[..at].to_vec(), orig[at..].to_vec()];
+            }
+        }
+        SplitOp::SplitFirst | SplitOp::SplitOffFirst => {
+            if n > 0 {
+                expect = vec![vec![orig[0]], orig[1..].to_vec()];
+            }
+        }
+        SplitOp::SplitLast | SplitOp::SplitOffLast => {
+            if n > 0 {
+                expect = vec![vec![orig[n - 1]], orig[..n - 1].to_vec()];
+            }
+        }
+        SplitOp::Partition(mask) => {
+            let t: Vec<u32> = orig.iter().copied().enumerate().filter(|(i, _)| mask >> (i % 8) & 1 == 1).map(|x| x.1).collect();
+            let f: Vec<u32> = orig.iter().copied().enumerate().filter(|(i, _)| mask >> (i % 8) & 1 == 0).map(|x| x.1).collect();
+            expect = if T::IS_ZST {
+                // zero-sized values are indistinguishable: the predicate answers the same for all of them
+                if mask & 1 == 1 { vec![orig.clone(), vec![]] } else { vec![vec![], orig.clone()] }
+            } else {
+                vec![t, f]
+            };
+            ordered = false;
+        }
+        SplitOp::SplitAtSpare => expect = vec![orig.clone()],
+        SplitOp::IntoFlattened => expect = vec![orig.clone()],
+        SplitOp::MapInPlace => expect = vec![orig.iter().map(|v| if T::IS_ZST { 0 } else { v + 1000 }).collect()],
+    }
+    let mut parts: Vec<Part<'_, T, S>> = Vec::new();
+    let res = catch_unwind(AssertUnwindSafe(|| -> Option<Vec<Part<'_, T, S>>> {
+        Some(match (whole, c.op) {
+            (Part::Boxed(mut b), SplitOp::SplitOff(s, e)) => {
+                let o = b.split_off(s..e);
+                vec![Part::Boxed(b), Part::Boxed(o)]
+            }
+            (Part::Fixed(mut v), SplitOp::SplitOff(s, e)) => {
+                let o = v.split_off(s..e);
+                vec![Part::Fixed(v), Part::Fixed(o)]
+            }
+            (Part::Vec(mut v), SplitOp::SplitOff(s, e)) => {
+                let o = v.split_off(s..e);
+                vec![Part::Vec(v), Part::Vec(o)]
+            }
+            (Part::Boxed(b), SplitOp::SplitAt(at)) => {
+                let (l, r) = b.split_at(at);
+                vec![Part::Boxed(l), Part::Boxed(r)]
+            }
+            (Part::Boxed(b), SplitOp::SplitFirst) => match b.split_first() {
+                Some((f, r)) => vec![Part::One(f), Part::Boxed(r)],
+                None => vec![],
+            },
+            (Part::Boxed(b), SplitOp::SplitLast) => match b.split_last() {
+                Some((l, r)) => vec![Part::One(l), Part::Boxed(r)],
+                None => vec![],
+            },
+            (Part::Boxed(mut b), SplitOp::SplitOffFirst) => match b.split_off_first() {
+                Some(f) => vec![Part::One(f), Part::Boxed(b)],
+                None => {
+                    drop(b);
+                    vec![]
+                }
+            },
+            (Part::Boxed(mut b), SplitOp::SplitOffLast) => match b.split_off_last() {
+                Some(l) => vec![Part::One(l), Part::Boxed(b)],
+                None => {
+                    drop(b);
+                    vec![]
+                }
+            },
+            (Part::Boxed(b), SplitOp::Partition(mask)) => {
+                // the predicate may be called in any order: decide by value, not by call index
+                let sel: Vec<u32> = expect[0].clone();
+                let _ = mask;
+                let (t, f) = b.partition(|e| {
+                    elem::tick();
+                    if T::IS_ZST { mask & 1 == 1 } else { sel.contains(&e.val()) }
+                });
+                vec![Part::Boxed(t), Part::Boxed(f)]
+            }
+            (Part::Fixed(v), SplitOp::SplitAtSpare) => {
+                let (init, spare) = v.split_at_spare();
+                let spare_len = spare.len();
+                if !T::IS_ZST && init.len() + spare_len != cap0 {
+                    std::panic::panic_any(crate::vecs::OracleFail(format!("split_at_spare: {} initialized + {} spare != capacity {}", init.len(), spare_len, cap0)));
+                }
+                // the spare part is usable memory: fill it with fresh values through a new fixed vector
+                let mut sv = FixedBumpVec::from_uninit(spare);
+                for i in 0..spare_len.min(2) {
+                    sv.push(T::new(900 + i as u32));
+                }
+                let sv_vals: Vec<u32> = sv.iter().map(|e| e.val()).collect();
+                if sv_vals.len() != spare_len.min(2) {
+                    std::panic::panic_any(crate::vecs::OracleFail("spare part lost elements".into()));
+                }
+                drop(sv);
+                vec![Part::Boxed(init)]
+            }
+            (Part::Boxed(b), SplitOp::MapInPlace) => vec![Part::Boxed(b.map_in_place(|e| {
+                elem::tick();
+                T::new(e.val() + 1000)
+            }))],
+            (Part::Fixed(v), SplitOp::MapInPlace) => vec![Part::Fixed(v.map_in_place(|e| {
+                elem::tick();
+                T::new(e.val() + 1000)
+            }))],
+            (other, _) => {
+                drop(other);
+                return None;
+            }
+        })
+    }));
+    match res {
+        Ok(None) => return Ok(false),
+        Ok(Some(p)) => {
+            if model_panics {
+                return Err(format!("{:?} must panic (invalid range) but returned", c.op));
+            }
+            parts = p;
+        }
+        Err(p) => {
+            if let Some(o) = p.downcast_ref::<crate::vecs::OracleFail>() {
+                return Err(o.0.clone());
+            }
+            if !model_panics {
+                return Err(format!("{:?} panicked: {}", c.op, vcore::crash::take_last_panic().unwrap_or_default()));
+            }
+            return Ok(false);
+        }
+    }
+    if matches!(c.op, SplitOp::SplitFirst | SplitOp::SplitLast | SplitOp::SplitOffFirst | SplitOp::SplitOffLast) && n == 0 {
+        if !parts.is_empty() {
+            return Err("splitting the first/last element off an empty slice returned something".into());
+        }
+        return Ok(false);
+    }
+    // ---- partition oracle
+    let check = |parts: &Vec<Part<'_, T, S>>, expect: &Vec<Vec<u32>>, what: &str| -> Result<(), String> {
+        for (i, (p, e)) in parts.iter().zip(expect.iter()).enumerate() {
+            let mut v = p.vals();
+            let mut e = e.clone();
+            if !ordered && what.starts_with("Partition") {
+                v.sort_unstable();
+                e.sort_unstable();
+            }
+            if v != e {
+                return Err(format!("{what}: part {i} contains {:?}, expected {:?}", p.vals(), e));
+            }
+        }
+        // parts must not share memory
+        if !T::IS_ZST {
+            for i in 0..parts.len() {
+                for j in i + 1..parts.len() {
+                    let (a, b) = (parts[i].range(), parts[j].range());
+                    if a.0 < b.1 && b.0 < a.1 && a.0 != a.1 && b.0 != b.1 {
+                        return Err(format!("{what}: parts {i} and {j} overlap in memory ({:#x}..{:#x} and {:#x}..{:#x})", a.0, a.1, b.0, b.1));
+                    }
+                }
+            }
+        }
+        Ok(())
+    };
+    if parts.len() != expect.len() {
+        return Err(format!("{:?}: produced {} parts, expected {}", c.op, parts.len(), expect.len()));
+    }
+    check(&parts, &expect, &format!("{:?}", c.op))?;
+    if !ordered {
+        // partition does not document the order inside each part: adopt the actual order (the multiset was verified)
+        for (e, p) in expect.iter_mut().zip(parts.iter()) {
+            *e = p.vals();
+        }
+    }
+    if !T::IS_ZST && matches!(c.op, SplitOp::SplitOff(..)) {
+        if let (Some(a), Some(b)) = (parts[0].capacity(), parts[1].capacity()) {
+            if a + b != cap0 {
+                return Err(format!("{:?}: capacities {a} + {b} do not add up to the original capacity {cap0}", c.op));
+            }
+        }
+    }
+    // ---- follow-up operations: each part is independent
+    for f in &c.follow {
+        let idx = match *f {
+            Follow::Push(i) | Follow::PushMany(i) | Follow::Shrink(i) | Follow::Truncate(i) | Follow::Clear(i) | Follow::Drop(i) | Follow::IntoBox(i) | Follow::Dealloc(i) | Follow::PopOne(i) => i,
+            _ => 0,
+        };
+        if idx >= parts.len() {
+            return Ok(true);
+        }
+        match *f {
+            Follow::Push(i) | Follow::PushMany(i) => {
+                let k = if matches!(f, Follow::PushMany(_)) { 6 } else { 1 };
+                match &mut parts[i] {
+                    Part::Vec(v) => {
+                        for j in 0..k {
+                            v.push(T::new(300 + j));
+                            expect[i].push(if T::IS_ZST { 0 } else { 300 + j });
+                        }
+                    }
+                    Part::Fixed(v) => {
+                        for j in 0..k {
+                            if v.len() < v.capacity() {
+                                v.push(T::new(300 + j));
+                                expect[i].push(if T::IS_ZST { 0 } else { 300 + j });
+                            }
+                        }
+                    }
+                    _ => return Ok(true),
+                }
+            }
+            Follow::Shrink(i) => match &mut parts[i] {
+                Part::Vec(v) => v.shrink_to_fit(),
+                _ => return Ok(true),
+            },
+            Follow::Truncate(i) => {
+                match &mut parts[i] {
+                    Part::Vec(v) => v.truncate(1),
+                    Part::Fixed(v) => v.truncate(1),
+                    Part::Boxed(b) => b.truncate(1),
+                    _ => return Ok(true),
+                }
+                expect[i].truncate(1);
+            }
+            Follow::Clear(i) => {
+                match &mut parts[i] {
+                    Part::Vec(v) => v.clear(),
+                    Part::Fixed(v) => v.clear(),
+                    Part::Boxed(b) => b.clear(),
+                    _ => return Ok(true),
+                }
+                expect[i].clear();
+            }
+            Follow::PopOne(i) => {
+                let got = match &mut parts[i] {
+                    Part::Vec(v) => v.pop().map(|e| e.val()),
+                    Part::Fixed(v) => v.pop().map(|e| e.val()),
+                    Part::Boxed(b) => b.pop().map(|e| e.val()),
+                    _ => return Ok(true),
+                };
+                if got != expect[i].pop() {
+                    return Err(format!("pop on part {i} returned {:?}", got));
+                }
+            }
+            Follow::Drop(i) => {
+                parts[i] = Part::Gone;
+                expect[i].clear();
+            }
+            Follow::IntoBox(i) => {
+                let p = std::mem::replace(&mut parts[i], Part::Gone);
+                parts[i] = match p {
+                    Part::Vec(v) => Part::Boxed(v.into_boxed_slice()),
+                    Part::Fixed(v) => Part::Boxed(v.into_boxed_slice()),
+                    other => other,
+                };
+            }
+            Follow::Dealloc(i) => {
+                let p = std::mem::replace(&mut parts[i], Part::Gone);
+                match p {
+                    Part::Boxed(b) => bump.dealloc(b),
+                    Part::One(b) => bump.dealloc(b),
+                    Part::Vec(v) => drop(v),
+                    Part::Fixed(v) => bump.dealloc(v.into_boxed_slice()),
+                    Part::Gone => {}
+                }
+                expect[i].clear();
+            }
+            Follow::AllocBetween => {
+                // a fresh allocation must not land on either part
+                let fresh = bump.alloc_slice_copy(&[0xEEu8; 24]);
+                let fr = (fresh.as_ptr() as usize, fresh.as_ptr() as usize + 24);
+                for (i, p) in parts.iter().enumerate() {
+                    let r = p.range();
+                    if !T::IS_ZST && r.0 != r.1 && fr.0 < r.1 && r.0 < fr.1 {
+                        return Err(format!("a new allocation overlaps part {i}"));
+                    }
+                }
+            }
+            Follow::MergeBack | Follow::MergeWrongOrder => {
+                if parts.len() != 2 || !matches!(c.op, SplitOp::SplitAt(_)) {
+                    return Ok(true);
+                }
+                let wrong = matches!(f, Follow::MergeWrongOrder);
+                let b1 = std::mem::replace(&mut parts[1], Part::Gone);
+                let b0 = std::mem::replace(&mut parts[0], Part::Gone);
+                let (Part::Boxed(l), Part::Boxed(r)) = (b0, b1) else { return Ok(true) };
+                let (ll, rl) = (l.len(), r.len());
+                // ground truth of adjacency in the order the merge is attempted (a part that was shortened since the
+                // split no longer touches its sibling)
+                let l_end = l.as_ptr() as usize + ll * size_of::<T>();
+                let r_end = r.as_ptr() as usize + rl * size_of::<T>();
+                let adjacent = if wrong { r_end == l.as_ptr() as usize } else { l_end == r.as_ptr() as usize };
+                let res = catch_unwind(AssertUnwindSafe(|| if wrong { r.merge(l) } else { l.merge(r) }));
+                match res {
+                    Ok(m) => {
+                        // non-adjacent parts must be rejected; adjacency holds trivially when one side is empty
+                        // (or for zero-sized elements, which have no addresses)
+                        if !adjacent && !T::IS_ZST {
+                            return Err(format!("merge accepted two parts that are not adjacent (lens {ll}, {rl}, wrong order: {wrong})"));
+                        }
+                        let mut e = if wrong { let mut x = expect[1].clone(); x.extend(expect[0].clone()); x } else { let mut x = expect[0].clone(); x.extend(expect[1].clone()); x };
+                        let mut got: Vec<u32> = m.iter().map(|e| e.val()).collect();
+                        if wrong {
+                            got.sort_unstable();
+                            e.sort_unstable();
+                        }
+                        if got != e {
+                            return Err(format!("merge produced {:?}, expected {:?}", got, e));
+                        }
+                        parts[0] = Part::Boxed(m);
+                        expect[0] = e;
+                        expect[1].clear();
+                    }
+                    Err(_) => {
+                        if adjacent || T::IS_ZST {
+                            return Err(format!("merge of adjacent parts panicked: {}", vcore::crash::take_last_panic().unwrap_or_default()));
+                        }
+                        expect[0].clear();
+                        expect[1].clear();
+                    }
+                }
+            }
+        }
+        check(&parts, &expect, &format!("after {:?}", f))?;
+    }
+    drop(parts);
+    Ok(true)
+}
+
+fn split_case(c: &SplitCase) -> Result<bool, String> {
+    slab::select(0);
+    slab::reset(0, SlabCfg::default());
+    elem::reset();
+    let _ = vcore::crash::take_last_panic();
+    let r = catch_unwind(AssertUnwindSafe(|| with_cfg!(c.ci, |S| if c.zst { run_split::<S, Z>(c) } else { run_split::<S, El>(c) })));
+    let r = match r {
+        Ok(r) => r,
+        Err(_) => Err(format!("unexpected panic: {}", vcore::crash::take_last_panic().unwrap_or_default())),
+    };
+    let ran = r?;
+    let flags = elem::flags();
+    let cen = elem::census();
+    if let Some(f) = flags.first() {
+        return Err(f.clone());
+    }
+    if cen.dropped_more > 0 {
+        return Err(format!("{} value(s) dropped more than once", cen.dropped_more));
+    }
+    if cen.alive > 0 || cen.z_live != 0 {
+        return Err(format!("{} value(s) never dropped after all parts were gone", cen.alive as i64 + cen.z_live));
+    }
+    let (errs, guards) = slab::with_slab(0, |s| (s.errors.first().cloned(), s.check_guards()));
+    if let Some(e) = errs {
+        return Err(format!("base allocator protocol: {e}"));
+    }
+    if let Err(e) = guards {
+        return Err(format!("memory outside granted blocks written: {e}"));
+    }
+    Ok(ran)
+}
+
+fn follow_alphabet() -> Vec<Follow> {
+    let mut v = vec![Follow::MergeBack, Follow::MergeWrongOrder, Follow::AllocBetween];
+    for i in 0..2 {
+        v.extend([Follow::Push(i), Follow::PushMany(i), Follow::Shrink(i), Follow::Truncate(i), Follow::Clear(i), Follow::Drop(i), Follow::IntoBox(i), Follow::Dealloc(i), Follow::PopOne(i)]);
+    }
+    v
+}
+
+pub fn explore(thorough: bool, deadline: Instant) -> (J, Vec<J>) {
+    let t0 = Instant::now();
+    let max_n = if thorough { 5 } else { 4 };
+    let depth = if thorough { 3 } else { 2 };
+    let fa = follow_alphabet();
+    let mut heads: Vec<(usize, Container, bool, usize, usize, SplitOp)> = Vec::new();
+    for ci in 0..CFGS.len() {
+        for cont in [Container::Boxed, Container::Fixed, Container::Vec] {
+            for zst in [false, true] {
+                for n in 0..=max_n {
+                    for extra in 0..=2usize {
+                        if cont == Container::Boxed && extra > 0 {
+                            continue;
+                        }
+                        let mut ops = Vec::new();
+                        for s in 0..=n + 1 {
+                            for e in 0..=n + 1 {
+                                if s > e && s != e + 1 {
+                                    continue;
+                                }
+                                ops.push(SplitOp::SplitOff(s, e));
+                            }
+                        }
+                        if cont == Container::Boxed {
+                            for at in 0..=n + 1 {
+                                ops.push(SplitOp::SplitAt(at));
+                            }
+                            ops.extend([SplitOp::SplitFirst, SplitOp::SplitLast, SplitOp::SplitOffFirst, SplitOp::SplitOffLast, SplitOp::MapInPlace]);
+                            for mask in [0u8, 0b0101, 0b0110, 0xff] {
+                                ops.push(SplitOp::Partition(mask));
+                            }
+                        }
+                        if cont == Container::Fixed {
+                            ops.extend([SplitOp::SplitAtSpare, SplitOp::MapInPlace]);
+                        }
+                        for op in ops {
+                            heads.push((ci, cont, zst, n, extra, op));
+                        }
+                    }
+                }
+            }
+        }
+    }
+    let evals = AtomicU64::new(0);
+    let nontriv = AtomicU64::new(0);
+    let viols: Mutex<Vec<J>> = Mutex::new(Vec::new());
+    let samples: Mutex<Vec<String>> = Mutex::new(Vec::new());
+    let stop = AtomicBool::new(false);
+    let capped = AtomicBool::new(false);
+    let next = AtomicUsize::new(0);
+    let threads = std::thread::available_parallelism().map_or(8, |n| n.get());
+    std::thread::scope(|sc| {
+        for _ in 0..threads {
+            sc.spawn(|| {
+                loop {
+                    let i = next.fetch_add(1, Ordering::Relaxed);
+                    if i >= heads.len() || stop.load(Ordering::Relaxed) {
+                        break;
+                    }
+                    let (ci, container, zst, n, extra_cap, op) = heads[i];
+                    // all follow-up sequences of length <= depth
+                    let mut stack: Vec<Vec<Follow>> = vec![vec![]];
+                    while let Some(follow) = stack.pop() {
+                        if Instant::now() > deadline {
+                            capped.store(true, Ordering::Relaxed);
+                            stop.store(true, Ordering::Relaxed);
+                            break;
+                        }
+                        let c = SplitCase { ci, container, zst, n, extra_cap, op, follow: follow.clone() };
+                        let r = split_case(&c);
+                        let e = evals.fetch_add(1, Ordering::Relaxed);
+                        if e % 100_003 == 17 {
+                            let mut s = samples.lock().unwrap();
+                            if s.len() < 12 {
+                                s.push(c.text());
+                            }
+                        }
+                        match r {
+                            Ok(true) => {
+                                nontriv.fetch_add(1, Ordering::Relaxed);
+                                if follow.len() < depth {
+                                    for f in &fa {
+                                        let mut f2 = follow.clone();
+                                        f2.push(*f);
+                                        stack.push(f2);
+                                    }
+                                }
+                            }
+                            Ok(false) => {}
+                            Err(m) => {
+                                let mut v = viols.lock().unwrap();
+                                v.push(J::obj().set("prop", "C16").set("cfg", CFGS[ci].0).set("params", format!("{container:?} zst={zst} n={n} extra_cap={extra_cap}")).set("history", format!("{op:?} then {follow:?}")).set("msg", m).set("replay_args", vec!["--case".to_string(), c.text()]));
+                                if v.len() >= 8 {
+                                    stop.store(true, Ordering::Relaxed);
+                                }
+                            }
+                        }
+                    }
+                }
+            });
+        }
+    });
+    let viols = viols.into_inner().unwrap();
+    let mut samples = samples.into_inner().unwrap();
+    if samples.is_empty() {
+        samples.push(SplitCase { ci: 0, container: Container::Boxed, zst: false, n: 3, extra_cap: 0, op: SplitOp::SplitAt(1), follow: vec![Follow::MergeBack] }.text());
+    }
+    let ev = evals.load(Ordering::Relaxed);
+    let nt = nontriv.load(Ordering::Relaxed);
+    let cov = J::obj()
+        .set("states", nt)
+        .set("transitions", ev)
+        .set("traces_validated_against_impl", ev)
+        .set("evaluations", ev)
+        .set("distinct_nontrivial", nt)
+        .set("rule", "every split operation (split_off with every start/end pair incl. invalid ones, split_at, split_first/last, split_off_first/last, partition masks, split_at_spare, map_in_place) on BumpBox<[T]>, FixedBumpVec and BumpVec of every length 0..N and extra capacity 0..2, sized and zero-sized elements, 4 arena configurations, followed by every sequence (depth bound) of follow-up operations on the parts (push until growth, shrink, truncate, clear, pop, drop, into_boxed_slice, dealloc, merge back, merge in the wrong order, a fresh allocation); after every step each part must hold exactly its expected elements, parts must not share memory, capacities must add up, and at the end every value was dropped exactly once; non-trivial = cases whose split was valid and whose follow-ups were applicable")
+        .set("samples", samples)
+        .set("exhaustive", !capped.load(Ordering::Relaxed))
+        .set("max_len", max_n)
+        .set("followup_depth", depth);
+    let space = J::obj()
+        .set("property_id", "C16")
+        .set("tier", if thorough { "thorough" } else { "quick" })
+        .set("seed", 0)
+        .set("level", "model_checking")
+        .set("space", "split-merge")
+        .set("coverage", cov)
+        .set("wall_s", t0.elapsed().as_secs_f64())
+        .set("violations", viols.len())
+        .set("floor", 1000)
+        .set("floor_ok", nt >= 1000 || !viols.is_empty() || capped.load(Ordering::Relaxed));
+    (space, viols)
+}
+
+// =====================================================================================================
+// C07, collection part: allocation failure inside collection growth
+// =====================================================================================================
+
+#[derive(Clone, Copy, Debug, PartialEq, Eq)]
+enum GKind {
+    Vec,
+    MutVec,
+    MutVecRev,
+}
+
+#[derive(Clone, Copy, Debug, PartialEq, Eq)]
+enum TryOp {
+    Push,
+    PushWith,
+    Insert(usize),
+    Reserve(usize),
+    ReserveExact(usize),
+    ExtendClone(usize),
+    ExtendWithin,
+    Append(usize),
+    Resize(usize),
+    ResizeWith(usize),
+}
+
+struct FailCase {
+    ci: usize,
+    kind: GKind,
+    zst: bool,
+    n: usize,
+    /// fail the k-th base-allocator call counted from the moment the collection exists (0 = the next one), and every later one if `all`
+    k: u32,
+    all: bool,
+    op: TryOp,
+}
+impl FailCase {
+    fn text(&self) -> String {
+        format!("fail:cfg={};kind={:?};zst={};n={};k={};all={};op={:?}", self.ci, self.kind, self.zst as u8, self.n, self.k, self.all as u8, self.op)
+    }
+}
+
+macro_rules! try_ops {
+    ($v:ident, $op:expr, $T:ty, $rev:expr, $model:ident) => {{
+        let n = $model.len();
+        let z = |x: u32| if <$T>::IS_ZST { 0 } else { x };
+        match $op {
+            TryOp::Push => $v.try_push(<$T>::new(41)).map(|_| if $rev { $model.insert(0, z(41)) } else { $model.push(z(41)) }),
+            TryOp::PushWith => $v.try_push_with(|| <$T>::new(42)).map(|_| if $rev { $model.insert(0, z(42)) } else { $model.push(z(42)) }),
+            TryOp::Insert(i) => {
+                let i = i.min(n);
+                $v.try_insert(i, <$T>::new(43)).map(|_| $model.insert(i, z(43)))
+            }
+            TryOp::Reserve(k) => $v.try_reserve(k),
+            TryOp::ReserveExact(k) => $v.try_reserve_exact(k),
+            TryOp::ExtendClone(c) => {
+                let src: Vec<$T> = (0..c as u32).map(|i| <$T>::new(500 + i)).collect();
+                let vals: Vec<u32> = (0..c as u32).map(|i| z(500 + i)).collect();
+                $v.try_extend_from_slice_clone(&src).map(|_| if $rev { $model.splice(0..0, vals); } else { $model.extend(vals) })
+            }
+            TryOp::ExtendWithin => {
+                let vals: Vec<u32> = $model.clone();
+                $v.try_extend_from_within_clone(..).map(|_| if $rev { $model.splice(0..0, vals); } else { $model.extend(vals) })
+            }
+            TryOp::Append(c) => {
+                let src: Vec<$T> = (0..c as u32).map(|i| <$T>::new(700 + i)).collect();
+                let vals: Vec<u32> = (0..c as u32).map(|i| z(700 + i)).collect();
+                $v.try_append(src).map(|_| if $rev { $model.splice(0..0, vals); } else { $model.extend(vals) })
+            }
+            TryOp::Resize(k) => $v.try_resize(n + k, <$T>::new(44)).map(|_| {
+                for _ in 0..k {
+                    if $rev { $model.insert(0, z(44)) } else { $model.push(z(44)) }
+                }
+            }),
+            TryOp::ResizeWith(k) => $v.try_resize_with(n + k, || <$T>::new(45)).map(|_| {
+                for _ in 0..k {
+                    if $rev { $model.insert(0, z(45)) } else { $model.push(z(45)) }
+                }
+            }),
+        }
+    }};
+}
+
+fn run_fail<S, T>(c: &FailCase) -> Result<bool, String>
+where
+    S: BumpAllocatorSettings + 'static,
+    T: ElemT + Clone + PartialEq,
+    SlabZ: BaseAllocator<S::GuaranteedAllocated>,
+{
+    let mut bump: B<S> = Bump::new_in(SlabZ);
+    let _ = bump.alloc(0u8);
+    let mut model: Vec<u32> = (1..=c.n as u32).map(|v| if T::IS_ZST { 0 } else { v }).collect();
+    let arm = |c: &FailCase| {
+        slab::with_slab(0, |s| {
+            let base = s.calls + c.k;
+            let bit = base.min(63);
+            s.cfg.fail_mask = if c.all { !0u64 << bit } else { 1u64 << bit };
+            s.refused
+        })
+    };
+    let disarm = || slab::with_slab(0, |s| s.cfg.fail_mask = 0);
+    macro_rules! scenario {
+        ($v:ident, $rev:expr) => {{
+            let refused0 = arm(c);
+            let before = model.clone();
+            let r = catch_unwind(AssertUnwindSafe(|| try_ops!($v, c.op, T, $rev, model)));
+            let refused1 = slab::with_slab(0, |s| s.refused);
+            disarm();
+            let r = match r {
+                Ok(r) => r,
+                Err(_) => return Err(format!("{:?} panicked although the base allocator only refused memory: {}", c.op, vcore::crash::take_last_panic().unwrap_or_default())),
+            };
+            let got: Vec<u32> = $v.iter().map(|e| e.val()).collect();
+            let failed = r.is_err();
+            if failed {
+                if refused1 == refused0 {
+                    return Err(format!("{:?} returned Err although the base allocator refused nothing", c.op));
+                }
+                if got != before || $v.len() != before.len() {
+                    return Err(format!("{:?} failed but changed the collection: {:?} (before {:?})", c.op, got, before));
+                }
+                model = before;
+            } else if got != model {
+                return Err(format!("{:?} succeeded with contents {:?}, expected {:?}", c.op, got, model));
+            }
+            // the collection keeps working afterwards
+            if let Err(_) = $v.try_push(T::new(99)) {
+                return Err("try_push after the fault was lifted failed".into());
+            }
+            if $rev { model.insert(0, if T::IS_ZST { 0 } else { 99 }) } else { model.push(if T::IS_ZST { 0 } else { 99 }) }
+            let got: Vec<u32> = $v.iter().map(|e| e.val()).collect();
+            if got != model {
+                return Err(format!("after the failed {:?} and one more push the contents are {:?}, expected {:?}", c.op, got, model));
+            }
+            failed
+        }};
+    }
+    let failed = match c.kind {
+        GKind::Vec => {
+            let mut v: BumpVec<T, &B<S>> = BumpVec::from_iter_in((1..=c.n as u32).map(T::new), &bump);
+            scenario!(v, false)
+        }
+        GKind::MutVec => {
+            let mut v: MutBumpVec<T, &mut B<S>> = MutBumpVec::from_iter_in((1..=c.n as u32).map(T::new), &mut bump);
+            scenario!(v, false)
+        }
+        GKind::MutVecRev => {
+            let mut v: MutBumpVecRev<T, &mut B<S>> = MutBumpVecRev::new_in(&mut bump);
+            for x in (1..=c.n as u32).rev() {
+                v.push(T::new(x));
+            }
+            scenario!(v, true)
+        }
+    };
+    Ok(failed)
+}
+
+fn fail_case(c: &FailCase) -> Result<bool, String> {
+    slab::select(0);
+    slab::reset(0, SlabCfg::default());
+    elem::reset();
+    let _ = vcore::crash::take_last_panic();
+    let r = catch_unwind(AssertUnwindSafe(|| with_cfg!(c.ci, |S| if c.zst { run_fail::<S, Z>(c) } else { run_fail::<S, El>(c) })));
+    slab::with_slab(0, |s| s.cfg.fail_mask = 0);
+    let r = match r {
+        Ok(r) => r,
+        Err(_) => Err(format!("unexpected panic: {}", vcore::crash::take_last_panic().unwrap_or_default())),
+    };
+    let failed = r?;
+    let cen = elem::census();
+    if let Some(f) = elem::flags().first() {
+        return Err(f.clone());
+    }
+    if cen.dropped_more > 0 || cen.alive > 0 || cen.z_live != 0 {
+        return Err(format!("drop accounting after an allocation failure: {} dropped twice, {} leaked", cen.dropped_more, cen.alive as i64 + cen.z_live));
+    }
+    let (errs, guards, outstanding) = slab::with_slab(0, |s| (s.errors.first().cloned(), s.check_guards(), s.outstanding()));
+    if let Some(e) = errs {
+        return Err(format!("base allocator protocol: {e}"));
+    }
+    if let Err(e) = guards {
+        return Err(format!("memory outside granted blocks written: {e}"));
+    }
+    if outstanding != 0 {
+        return Err(format!("{outstanding} chunks never released"));
+    }
+    Ok(failed)
+}
+
+pub fn explore_alloc_failures(thorough: bool, _deadline: Instant) -> (J, Vec<J>) {
+    let t0 = Instant::now();
+    let max_n = if thorough { 6 } else { 4 };
+    let mut cases = Vec::new();
+    for ci in 0..CFGS.len() {
+        for kind in [GKind::Vec, GKind::MutVec, GKind::MutVecRev] {
+            for zst in [false, true] {
+                for n in 0..=max_n {
+                    let mut ops = vec![TryOp::Push, TryOp::PushWith, TryOp::ExtendWithin];
+                    for i in [0, n / 2, n] {
+                        ops.push(TryOp::Insert(i));
+                    }
+                    for k in [1, 4, 40, 400] {
+                        ops.extend([TryOp::Reserve(k), TryOp::ReserveExact(k), TryOp::ExtendClone(k.min(60)), TryOp::Append(k.min(60)), TryOp::Resize(k.min(60)), TryOp::ResizeWith(k.min(60))]);
+                    }
+                    for op in ops {
+                        for k in 0..if thorough { 3 } else { 2 } {
+                            for all in [true, false] {
+                                cases.push(FailCase { ci, kind, zst, n, k, all, op });
+                            }
+                        }
+                    }
+                }
+            }
+        }
+    }
+    let evals = AtomicU64::new(0);
+    let failed_n = AtomicU64::new(0);
+    let viols: Mutex<Vec<J>> = Mutex::new(Vec::new());
+    let next = AtomicUsize::new(0);
+    let threads = std::thread::available_parallelism().map_or(8, |n| n.get());
+    std::thread::scope(|sc| {
+        for _ in 0..threads {
+            sc.spawn(|| {
+                loop {
+                    let i = next.fetch_add(1, Ordering::Relaxed);
+                    if i >= cases.len() {
+                        break;
+                    }
+                    let c = &cases[i];
+                    evals.fetch_add(1, Ordering::Relaxed);
+                    match fail_case(c) {
+                        Ok(true) => {
+                            failed_n.fetch_add(1, Ordering::Relaxed);
+                        }
+                        Ok(false) => {}
+                        Err(m) => {
+                            let mut v = viols.lock().unwrap();
+                            if v.len() < 8 {
+                                v.push(J::obj().set("prop", "C07").set("cfg", CFGS[c.ci].0).set("params", format!("{:?} zst={} n={} fail_call=+{} all_later={}", c.kind, c.zst, c.n, c.k, c.all)).set("history", format!("{:?}", c.op)).set("msg", m).set("replay_args", vec!["--case".to_string(), c.text()]));
+                            }
+                        }
+                    }
+                }
+            });
+        }
+    });
+    let viols = viols.into_inner().unwrap();
+    let ev = evals.load(Ordering::Relaxed);
+    let nt = failed_n.load(Ordering::Relaxed);
+    let samples: Vec<String> = cases.iter().step_by((cases.len() / 6).max(1)).take(6).map(|c| c.text()).collect();
+    let cov = J::obj()
+        .set("evaluations", ev)
+        .set("distinct_nontrivial", nt)
+        .set("states", ev)
+        .set("transitions", ev)
+        .set("traces_validated_against_impl", ev)
+        .set("rule", "collection part of C07: {BumpVec, MutBumpVec, MutBumpVecRev} x sized/zero-sized elements x initial length x 4 arena configurations (16-byte first chunk) x every try_ growth operation (try_push, try_push_with, try_insert at 3 indices, try_reserve(_exact), try_extend_from_slice_clone, try_extend_from_within_clone, try_append, try_resize(_with) with amounts 1/4/40/400) x fault plan (the k-th base-allocator call after the collection exists fails, alone or together with all later ones); a refused call must yield Err with length and contents unchanged (no panic), the collection must keep working after the fault is lifted, and drop / release accounting must be exact; non-trivial = cases in which the operation actually failed")
+        .set("samples", samples)
+        .set("exhaustive", true);
+    let space = J::obj()
+        .set("property_id", "C07")
+        .set("tier", if thorough { "thorough" } else { "quick" })
+        .set("seed", 0)
+        .set("level", "fault_enumeration")
+        .set("space", "collection-growth-failures")
+        .set("coverage", cov)
+        .set("wall_s", t0.elapsed().as_secs_f64())
+        .set("violations", viols.len())
+        .set("floor", 500)
+        .set("floor_ok", nt >= 500 || !viols.is_empty());
+    (space, viols)
+}
+
+// =====================================================================================================
+// replay
+// =====================================================================================================
+
+fn kv(s: &str) -> std::collections::HashMap<String, String> {
+    // values may contain ';' only inside [...] (follow list) – split on ';' at bracket depth 0
+    let mut m = std::collections::HashMap::new();
+    let mut depth = 0;
+    let mut cur = String::new();
+    let mut items = Vec::new();
+    for ch in s.chars() {
+        match ch {
+            '[' | '(' => depth += 1,
+            ']' | ')' => depth -= 1,
+            _ => {}
+        }
+        if ch == ';' && depth == 0 {
+            items.push(std::mem::take(&mut cur));
+        } else {
+            cur.push(ch);
+        }
+    }
+    items.push(cur);
+    for it in items {
+        if let Some((k, v)) = it.split_once('=') {
+            m.insert(k.to_string(), v.to_string());
+        }
+    }
+    m
+}
+
+fn nums(s: &str) -> Vec<usize> {
+    let mut out = Vec::new();
+    let mut cur = String::new();
+    for ch in s.chars() {
+        if ch.is_ascii_digit() {
+            cur.push(ch);
+        } else if !cur.is_empty() {
+            out.push(cur.parse().unwrap());
+            cur.clear();
+        }
+    }
+    if !cur.is_empty() {
+        out.push(cur.parse().unwrap());
+    }
+    out
+}
+
+fn parse_split_op(s: &str) -> Option<SplitOp> {
+    let n = nums(s);
+    Some(match s.split('(').next()? {
+        "SplitOff" => SplitOp::SplitOff(n[0], n[1]),
+        "SplitAt" => SplitOp::SplitAt(n[0]),
+        "SplitFirst" => SplitOp::SplitFirst,
+        "SplitLast" => SplitOp::SplitLast,
+        "SplitOffFirst" => SplitOp::SplitOffFirst,
+        "SplitOffLast" => SplitOp::SplitOffLast,
+        "Partition" => SplitOp::Partition(n[0] as u8),
+        "SplitAtSpare" => SplitOp::SplitAtSpare,
+        "IntoFlattened" => SplitOp::IntoFlattened,
+        "MapInPlace" => SplitOp::MapInPlace,
+        _ => return None,
+    })
+}
+
+fn parse_follow(s: &str) -> Vec<Follow> {
+    let inner = s.trim().trim_start_matches('[').trim_end_matches(']');
+    let mut out = Vec::new();
+    for t in inner.split(", ") {
+        let t = t.trim();
+        if t.is_empty() {
+            continue;
+        }
+        let n = nums(t);
+        let i = n.first().copied().unwrap_or(0);
+        out.push(match t.split('(').next().unwrap() {
+            "Push" => Follow::Push(i),
+            "PushMany" => Follow::PushMany(i),
+            "Shrink" => Follow::Shrink(i),
+            "Truncate" => Follow::Truncate(i),
+            "Clear" => Follow::Clear(i),
+            "Drop" => Follow::Drop(i),
+            "IntoBox" => Follow::IntoBox(i),
+            "Dealloc" => Follow::Dealloc(i),
+            "PopOne" => Follow::PopOne(i),
+            "MergeBack" => Follow::MergeBack,
+            "MergeWrongOrder" => Follow::MergeWrongOrder,
+            _ => Follow::AllocBetween,
+        });
+    }
+    out
+}
+
+pub fn replay(case: &str) -> Option<String> {
+    if let Some(rest) = case.strip_prefix("split:") {
+        let m = kv(rest);
+        let c = SplitCase {
+            ci: m["cfg"].parse().ok()?,
+            container: match m["cont"].as_str() {
+                "Boxed" => Container::Boxed,
+                "Fixed" => Container::Fixed,
+                _ => Container::Vec,
+            },
+            zst: m["zst"] == "1",
+            n: m["n"].parse().ok()?,
+            extra_cap: m["extra"].parse().ok()?,
+            op: parse_split_op(&m["op"])?,
+            follow: parse_follow(&m["follow"]),
+        };
+        return split_case(&c).err();
+    }
+    if let Some(rest) = case.strip_prefix("fail:") {
+        let m = kv(rest);
+        let n = nums(&m["op"]);
+        let a = n.first().copied().unwrap_or(0);
+        let op = match m["op"].split('(').next()? {
+            "Push" => TryOp::Push,
+            "PushWith" => TryOp::PushWith,
+            "Insert" => TryOp::Insert(a),
+            "Reserve" => TryOp::Reserve(a),
+            "ReserveExact" => TryOp::ReserveExact(a),
+            "ExtendClone" => TryOp::ExtendClone(a),
+            "ExtendWithin" => TryOp::ExtendWithin,
+            "Append" => TryOp::Append(a),
+            "Resize" => TryOp::Resize(a),
+            _ => TryOp::ResizeWith(a),
+        };
+        let c = FailCase {
+            ci: m["cfg"].parse().ok()?,
+            kind: match m["kind"].as_str() {
+                "Vec" => GKind::Vec,
+                "MutVec" => GKind::MutVec,
+                _ => GKind::MutVecRev,
+            },
+            zst: m["zst"] == "1",
+            n: m["n"].parse().ok()?,
+            k: m["k"].parse().ok()?,
+            all: m["all"] == "1",
+            op,
+        };
+        return fail_case(&c).err();
+    }
+    Some("unknown case".into())
 }
